@@ -3344,3 +3344,10 @@ package sftp
 //@   assert before call (ReadlinkFileLister).Readlink#1: arg1 == r.Filepath
 //@   update after call (ReadlinkFileLister).Readlink#1: ghost.rlText = ret0
 //@   ensures typeis(result, *sshFxpNamePacket) ==> len(result.(*sshFxpNamePacket).NameAttrs) == 1 && result.(*sshFxpNamePacket).NameAttrs[0] != nil && result.(*sshFxpNamePacket).NameAttrs[0].Name == ghost.rlText && result.(*sshFxpNamePacket).NameAttrs[0].LongName == ghost.rlText
+
+// The closure of Serve that spawns a worker: what a worker needs (Serve$2$1) is discharged at the go statement from
+// the closure's own precondition. That precondition is assumed where the packet manager invokes the closure
+// (workerChan calls it before the first packet is read, with the server as Serve received it); it is not checked there.
+//@ func (*RequestServer).Serve$2
+//@   property C10, C07
+//@   requires rs != nil && rs.serverConn != nil && rs.WriteCloser != nil && rsOK(rs) && ctx != nil && MaxFilelist >= 1 && MaxFilelist <= 1000000 && okPath(rs.startDirectory) && reqsPathOK(rs)
